@@ -194,7 +194,90 @@ def check_var(ctx):
     ctx.check(R, ln, "ln_normal = -1/2 (log(2 pi var) + (x - mu)^2 / var)", okn, "ln_normal returns `%s`" % (A.unparse(rr[0].value) if rr else None), key="ln_normal")
 
 
+def check_infer(ctx):
+    R = "C04-INFER"
+    ctx.rule(R, "JokerSamples.from_inference_data flattens every quantity it takes from the MCMC result - parameter columns, log-probability columns and the divergence "
+                "mask - with ONE operation (same method chain, same arguments): otherwise, with several chains, row i pairs the parameters of one draw with the "
+                "log-probabilities / divergence flag of another.")
+    fn = ctx.prog.func(SM, "JokerSamples.from_inference_data", R)
+    forms = {}
+    n = 0
+
+    params = A.param_names(fn)
+    root = params[2] if len(params) > 2 else "idata"          # (cls, prior, idata, data, ...): the MCMC result, whatever it is called
+    roots = {root}
+    grew = True
+    while grew:
+        grew = False
+        for st in A.walk_local(fn):
+            if isinstance(st, ast.Assign) and len(st.targets) == 1 and isinstance(st.targets[0], ast.Name) and st.targets[0].id not in roots:
+                v = st.value
+                base = v
+                while isinstance(base, ast.Attribute):
+                    base = base.value
+                if isinstance(base, ast.Name) and base.id in roots and isinstance(v, (ast.Name, ast.Attribute)):
+                    roots.add(st.targets[0].id)
+                    grew = True
+
+    def rooted(e):
+        while isinstance(e, ast.Attribute):
+            e = e.value
+        return isinstance(e, ast.Name) and e.id in roots
+
+    def source(e):
+        """<result>[name] / <result>.x / getattr(<result>, x) / <result>.sample_stats.diverging, <result> being the MCMC result or a local view of it"""
+        if isinstance(e, ast.Subscript) and rooted(e.value):
+            return True
+        if isinstance(e, ast.Attribute) and rooted(e.value) and not (isinstance(e.value, ast.Name) and e.attr in ("posterior", "sample_stats")) and e.attr not in ("to_numpy", "values", "stack", "ravel"):
+            return True
+        if isinstance(e, ast.Call) and A.call_name(e) == "getattr" and e.args and rooted(e.args[0]):
+            return True
+        return False
+
+    class Abs(ast.NodeTransformer):
+        def __init__(self):
+            self.hits = 0
+
+        def visit(self, node):
+            if source(node):
+                self.hits += 1
+                return ast.Name(id="SRC", ctx=ast.Load())
+            return super().visit(node)
+    for st in A.walk_local(fn):
+        if not isinstance(st, ast.Assign):
+            continue
+        v = A.inline_temporaries(st.value, st, fn)
+        for sub in ast.walk(v):
+            # the maximal method chain applied to a source: strip unit products around it
+            pass
+        a = Abs()
+        v2 = a.visit(A.clone(v))
+        if not a.hits:
+            continue
+        # the flattening is the method chain applied to SRC: climb from SRC while it is the receiver of an attribute access / the callee of a call
+        par = {}
+        for x in ast.walk(v2):
+            for ch in ast.iter_child_nodes(x):
+                par[id(ch)] = x
+        for x in ast.walk(v2):
+            if isinstance(x, ast.Name) and x.id == "SRC":
+                cur = x
+                while True:
+                    p_ = par.get(id(cur))
+                    if isinstance(p_, ast.Attribute) and p_.value is cur:
+                        cur = p_
+                    elif isinstance(p_, ast.Call) and p_.func is cur:
+                        cur = p_
+                    else:
+                        break
+                n += 1
+                forms.setdefault(canon(cur), []).append(st)
+    ctx.check(R, fn, "one flattening for parameters, log-probabilities and divergences", len(forms) == 1 and n >= 3,
+              "different flattenings are applied: %s" % sorted(forms) if len(forms) != 1 else "only %d flattened quantities found" % n, key="flatten")
+
+
 def run(ctx):
+    check_infer(ctx)
     K = _kernel.Kernel(ctx.prog)
     check_tref(ctx, K)
     check_map(ctx)
@@ -208,6 +291,10 @@ def run(ctx):
     ctx.rule("C04-IO", "samples read back from a file carry the same reference epoch (FITS epoch written as TCB MJD and read back as such; metadata restored) - shared with C12-PATHS.")
     from .C12 import check_paths
     check_paths(_Relabel(ctx, {"C12-PATHS": "C04-IO"}))
+    from .C18 import check_guards
+    ctx.rule("C04-NORMAL", "the identity ln p(y|theta) = ln p(y|theta,x) + ln p(x|theta) - ln N(x|a,A) needs Gaussian linear priors: every validation guard of the prior "
+                           "constructors (Normal-only linear parameters, required names, units) is in place (shared with C18-GUARD).")
+    check_guards(_Relabel(ctx, {"C18-GUARD": "C04-NORMAL"}))
     from .C12 import check_refuse
     ctx.rule("C04-META", "an append that would pair rows with another file's reference epoch / model metadata is refused: metadata_conflicts stays 'error' on every path into the "
                          "writer (shared with C12-REFUSE).")
